@@ -237,6 +237,9 @@ def replay(ck, path):
         v = ck.model([("rqspec " if red else "qspec ") + enc(x) + f" {got[0]} {got[1]}"], parallel=False)[0]
         print(f"{rp['function']}({rp['arg_type']}(float.fromhex('{rp['arg_hex']}'))) = {got}; Lean Spec verdict {v}")
         verdicts.append(v)
+    elif "sceq_call" in rp:
+        import c09_sceq
+        verdicts.append(c09_sceq.replay(ck, np, rp))
     elif "call" in rp and "request" in rp:
         got = eval(rp["call"], {"scaling": scaling, "np": np, "float": float})
         tok = rp["request"].split()
@@ -860,6 +863,17 @@ def main():
     ck.count("D_wall_s", round(time.time() - t0, 1))
     ck.sample({"stage": "D2", "request": reqs[0], "implementation": reals[0], "model": outs[0]})
 
+    # ------------------------------------------------------------------------------------------
+    # E. the "same quantisation" predicate that decides whether a requantising pair is derived at all
+    #    (tensor.py: is_scaling_equal / check_quantized_tens_scaling_equal; harness/c09_sceq.py)
+    # ------------------------------------------------------------------------------------------
+    t0 = time.time()
+    import c09_sceq
+    e_evals, e_distinct = c09_sceq.run(ck, np, rng, thorough)
+    evaluations += e_evals
+    distinct += e_distinct
+    ck.count("E_wall_s", round(time.time() - t0, 1))
+
     pool.close()
     pool.join()
     unreached = []
@@ -871,7 +885,8 @@ def main():
         "distinct_nontrivial": distinct,
         "rule": "one evaluation = one call of a real scaling.* function (or one accumulator pushed through the implementation's "
                 "pooling pair) judged by Lean; distinct_nontrivial counts distinct scale values inside the hardware range "
-                "(non-degenerate result), distinct window sizes, and distinct realistic (kind, value) triples of the elementwise helpers",
+                "(non-degenerate result), distinct window sizes, distinct realistic (kind, value) triples of the elementwise helpers, "
+                "and distinct pairs of quantisations handed to is_scaling_equal",
         "exhaustive": {"double_exponents": "all -1126..971 (frexp form), incl. subnormals", "float32_exponents": "all -149..104",
                        "float32_mantissas": "all 2^23 for 4 exponents" if thorough else "3 windows of 2^17 for 2 exponents",
                        "pool_windows": "all 1..65536", "pool_accumulators": f"all 8-bit reachable for n<={full8}, all 16-bit reachable for n<={full16}"},
